@@ -265,6 +265,24 @@ def run_failing(env, s):
         finally:
             if not mask.flags.writeable:
                 OBSERVE_ERRORS.append("a failing where() left the caller's condition array read-only")
+    elif kind == "backward_bad_seed":
+        # backward(g) with a seed that cannot broadcast into the tensor: refused before any gradient is touched
+        if t.constant:
+            mg.sum(t, axis=9)         # (backward() of a constant returns at once: use another refusal)
+        else:
+            t.backward(np.ones((7, 11, 13)) if t.shape != (7, 11, 13) else np.ones(5))
+    elif kind == "norm_matrix":
+        # a matrix norm is refused (NotImplementedError): for ord=inf too, before anything is computed
+        if t.ndim == 2:
+            mg.linalg.norm(t, ord=np.inf)
+        else:
+            if t.ndim >= 2:
+                mg.linalg.norm(t, ord=np.inf, axis=(0, 1, 2)[: t.ndim])
+            else:
+                mg.sum(t, axis=9)     # (no matrix to take the norm of)
+    elif kind == "composite_second_step":
+        # a function built from two operations whose SECOND one fails (clip with an upper bound that does not broadcast)
+        mg.clip(t, 0.0, np.ones((7, 11, 13)) if t.shape != (7, 11, 13) and t.size > 1 else "abc")
     elif kind == "inplace_value_error_in_value":
         t[...] = mg.reshape(t, (t.size + 1,))
     else:
